@@ -854,6 +854,9 @@ def explore(start, seed, depth):
     except Viol as v:
         record('start:' + v.key, v.what, [])
         return res
+    except Exception as e:  # noqa: BLE001
+        record('start:exception:' + type(e).__name__, 'building the start state raised %r\n%s' % (e, traceback.format_exc()[-1200:]), [])
+        return res
     seen = {state_key(psi, sh)}
     frontier = [(psi, sh, [])]
     for d in range(depth):
@@ -867,7 +870,8 @@ def explore(start, seed, depth):
                     continue
                 psi2, sh2, oc = out
                 res['outcomes'].add(act[0] + ':' + oc)
-                res['keys'].add('%s|%s' % (start[:3], h2) if d == 0 else '')
+                if d == 0:
+                    res['keys'].add('%s|%s' % (start[:3], act))
                 if psi2 is None:
                     continue
                 k = state_key(psi2, sh2)
@@ -877,7 +881,6 @@ def explore(start, seed, depth):
         frontier = nxt
         if d == 0 and frontier:
             res['samples'].append(dict(start=list(start), history=frontier[len(frontier) // 2][2]))
-    res['keys'].discard('')
     res['states'] = len(seen)
     res['evaluations'] = res['traces'] = res['transitions']
     return res
@@ -925,14 +928,15 @@ def run_unit(unit):
 def replay(case):
     start = tuple(case['start'])
     res = dict(evaluations=0, violations=[])
+    logging.disable(logging.WARNING)
 
     def record(key, what_, hist):
         res['violations'].append(dict(key=key, what=what_, case=case))
 
     try:
         psi, sh, ctx = build(start, case['seed'])
-    except Viol as v:
-        record('start:' + v.key, v.what, [])
+    except Exception as e:  # noqa: BLE001
+        record('start:' + getattr(e, 'key', 'exception:' + type(e).__name__), str(e), [])
         return res
     hist = []
     for act in case['history']:
